@@ -501,6 +501,8 @@ type pkRun struct {
 	cfg *pkCfg
 	pol gocql.HostSelectionPolicy
 	seq int // record number: keeps the log of the sequential part in program order
+
+	inBurst bool
 }
 
 func (r *pkRun) rec(format string, args ...interface{}) {
@@ -825,6 +827,19 @@ func (r *pkRun) pickAndCheck(q pkQuery) (first *pkHost, ok bool) {
 		}
 	}
 
+	// another query is picked and iterated while this one is half-way through its hosts (its
+	// iterator must not be disturbed by that: each query owns its sequence)
+	interAt := -1
+	var q2 pkQuery
+	if tp := k.Tape; !r.inBurst && tp.Chance(1, 4) {
+		interAt = tp.Next(3)
+		q2 = q
+		if tp.Chance(1, 2) {
+			q2 = m.genQuery(tp)
+		}
+		k.Fault("history.pick-inside-pick")
+	}
+
 	var offered []*gocql.HostInfo
 	finished := false
 	nilInfo := false
@@ -835,6 +850,15 @@ func (r *pkRun) pickAndCheck(q pkQuery) (first *pkHost, ok bool) {
 			return
 		}
 		for i := 0; i < limit; i++ {
+			if i == interAt+1 && interAt >= 0 {
+				if n2 := r.pol.Pick(pkExec(q2)); n2 != nil {
+					for j := 0; j < limit; j++ {
+						if n2() == nil {
+							break
+						}
+					}
+				}
+			}
 			sh := next()
 			if sh == nil {
 				finished = true
@@ -1059,6 +1083,9 @@ func (r *pkRun) pickAndCheck(q pkQuery) (first *pkHost, ok bool) {
 // successive picks without routing key the first host offered is not constant when that
 // tier has at least two up hosts.
 func (r *pkRun) burst() bool {
+	// rotation is judged over successive picks: nothing else may pick in between
+	r.inBurst = true
+	defer func() { r.inBurst = false }()
 	m, cfg := r.m, r.cfg
 	tier, size, upN := -1, 0, 0
 	for t := 0; t <= cfg.maxTier() && tier < 0; t++ {
